@@ -179,7 +179,7 @@ template<class T>
                 vf::violation("to_float/" + std::string(vf::kind_name(o.kind)) + "/" + vf::tn<F>(), id, tn + " " + av + " static_cast<" + vf::tn<F>() + "> -> " + o.str());
             } else if (!(got == e.nearest)) {
                 ++C.bad;
-                const char* how = e.exact ? "exactly_representable" : (got == e.toward_zero ? "inexact/truncated_instead_of_nearest" : "inexact/neither_nearest_nor_truncated");
+                const char* how = e.exact ? "exactly_representable" : (got == e.toward_zero ? "inexact/adjacent_toward_zero_instead_of_nearest" : (got == std::nextafter(e.toward_zero, O::neg(a) ? -std::numeric_limits<F>::infinity() : std::numeric_limits<F>::infinity()) ? "inexact/adjacent_away_from_zero_instead_of_nearest" : "inexact/not_adjacent"));
                 vf::violation(std::string("to_float/value/") + how + "/" + vf::tn<F>(), id, tn + " " + av + " static_cast<" + vf::tn<F>() + "> = " + vf::to_s(got) + ", correctly rounded " + vf::to_s(e.nearest) + ", truncated " + vf::to_s(e.toward_zero));
             } else
                 ++(e.exact ? C.fl_exact : C.fl_rounded);
@@ -278,15 +278,28 @@ static std::vector<u128> vend_lattice(bool extended)
 }
 
 template<wi::size_t Wd, class L, bool S>
-static void vend_lattice_programs(bool binary, bool unary)
+static void vend_lattice_programs(bool binary)
 {
     using T = wi::uintwide_t<Wd, L, void, S>;
     std::string p = "<" + std::to_string(Wd) + ",uint" + std::to_string(sizeof(L) * 8) + "_t," + (S ? "signed" : "unsigned") + ">";
-    // 12 patterns where that stays <= 1728 values per side (thorough), 8 otherwise
-    bool ext = VF_TIER && uw<T>::nlimbs <= 3;
-    auto v = vend_lattice<T>(ext);
-    if (binary) prog_vend_binary<T>("vend_lattice_binary" + p, v, false);
-    if (unary) prog_vend_unary<T>("vend_lattice_unary" + p, v, false);
+    // thorough: 12 limb patterns on the left (and on the right too while that stays <= 1728 values), 8 otherwise
+    auto v8 = vend_lattice<T>(false);
+    auto v12 = VF_TIER ? vend_lattice<T>(true) : v8;
+    if (binary) {
+        prog_vend_binary<T>("vend_lattice_binary" + p, v12, (VF_TIER && uw<T>::nlimbs <= 3) ? v12 : v8, false);
+    } else {
+        std::vector<u128> vu = (uw<T>::nlimbs <= 3) ? v12 : v8;
+        for (BigW const& h : float_hazards(int(Wd), S)) vu.push_back(u128(h.low128()) & (Wd == 128 ? ~u128(0) : ((u128(1) << (Wd % 128)) - 1)));
+        std::sort(vu.begin(), vu.end());
+        vu.erase(std::unique(vu.begin(), vu.end()), vu.end());
+        prog_vend_unary<T>("vend_lattice_unary" + p, vu, false);
+    }
+}
+template<wi::size_t Wd, class L>
+static void vend_lattice_both(bool binary)
+{
+    vend_lattice_programs<Wd, L, true>(binary);
+    vend_lattice_programs<Wd, L, false>(binary);
 }
 
 // the 16-bit space: complete (thorough) or the stated 2^12 sub-grid (quick)
@@ -300,10 +313,18 @@ static std::vector<u128> vend16_values(bool all)
 }
 
 #if VF_PART == 0
-static void gA0() { prog_vend_binary<wi::uintwide_t<16, std::uint8_t, void, true>>("vend16_binary<signed>", vend16_values(VF_TIER != 0), VF_TIER != 0); }
+static void gA0()
+{
+    auto v = vend16_values(VF_TIER != 0);
+    prog_vend_binary<wi::uintwide_t<16, std::uint8_t, void, true>>("vend16_binary<signed>", v, v, VF_TIER != 0);
+}
 VF_GROUP(gA0);
 #elif VF_PART == 1
-static void gA1() { prog_vend_binary<wi::uintwide_t<16, std::uint8_t, void, false>>("vend16_binary<unsigned>", vend16_values(VF_TIER != 0), VF_TIER != 0); }
+static void gA1()
+{
+    auto v = vend16_values(VF_TIER != 0);
+    prog_vend_binary<wi::uintwide_t<16, std::uint8_t, void, false>>("vend16_binary<unsigned>", v, v, VF_TIER != 0);
+}
 VF_GROUP(gA1);
 #elif VF_PART == 2
 static void gA2()
@@ -312,42 +333,30 @@ static void gA2()
     prog_vend_unary<wi::uintwide_t<16, std::uint8_t, void, false>>("vend16_unary<unsigned>", vend16_values(true), true);
 }
 VF_GROUP(gA2);
-#elif VF_PART == 3
-static void gA3()
+#elif VF_PART == 3 || VF_PART == 7
+static void gL8()
 {
-    vend_lattice_programs<24, std::uint8_t, true>(true, true);
-    vend_lattice_programs<24, std::uint8_t, false>(true, true);
-    vend_lattice_programs<32, std::uint8_t, true>(true, true);
-    vend_lattice_programs<32, std::uint8_t, false>(true, true);
+    vend_lattice_both<24, std::uint8_t>(VF_PART == 3);
+    vend_lattice_both<32, std::uint8_t>(VF_PART == 3);
 }
-VF_GROUP(gA3);
-#elif VF_PART == 4
-static void gA4()
+VF_GROUP(gL8);
+#elif VF_PART == 4 || VF_PART == 8
+static void gL16()
 {
-    vend_lattice_programs<32, std::uint16_t, true>(true, true);
-    vend_lattice_programs<32, std::uint16_t, false>(true, true);
-    vend_lattice_programs<48, std::uint16_t, true>(true, true);
-    vend_lattice_programs<48, std::uint16_t, false>(true, true);
-    vend_lattice_programs<64, std::uint16_t, true>(true, true);
-    vend_lattice_programs<64, std::uint16_t, false>(true, true);
+    vend_lattice_both<64, std::uint16_t>(VF_PART == 4);
+    vend_lattice_both<48, std::uint16_t>(VF_PART == 4);
+    vend_lattice_both<32, std::uint16_t>(VF_PART == 4);
 }
-VF_GROUP(gA4);
-#elif VF_PART == 5
-static void gA5()
+VF_GROUP(gL16);
+#elif VF_PART == 5 || VF_PART == 9
+static void gL32()
 {
-    vend_lattice_programs<64, std::uint32_t, true>(true, true);
-    vend_lattice_programs<64, std::uint32_t, false>(true, true);
-    vend_lattice_programs<96, std::uint32_t, true>(true, true);
-    vend_lattice_programs<96, std::uint32_t, false>(true, true);
+    vend_lattice_both<128, std::uint32_t>(VF_PART == 5);
+    vend_lattice_both<96, std::uint32_t>(VF_PART == 5);
+    vend_lattice_both<64, std::uint32_t>(VF_PART == 5);
 }
-VF_GROUP(gA5);
-#elif VF_PART == 6
-static void gA6()
-{
-    vend_lattice_programs<128, std::uint32_t, true>(true, true);
-    vend_lattice_programs<128, std::uint32_t, false>(true, true);
-    vend_lattice_programs<128, std::uint64_t, true>(true, true);
-    vend_lattice_programs<128, std::uint64_t, false>(true, true);
-}
-VF_GROUP(gA6);
+VF_GROUP(gL32);
+#elif VF_PART == 6 || VF_PART == 10
+static void gL64() { vend_lattice_both<128, std::uint64_t>(VF_PART == 6); }
+VF_GROUP(gL64);
 #endif
